@@ -1394,6 +1394,12 @@ class Store:
                 processes = processes or {}
                 mother_steps = copy.deepcopy(mother_store.get_steps())
                 deep_merge_check(processes, mother_steps or {})
+                # the copies start idle: a command the mother's process
+                # is still working on is not theirs
+                for _, process in dict_to_paths((), processes):
+                    if isinstance(process, Process):
+                        process._pending_command = None
+                        process._command_result = None
 
             # get the daughter topology
             if 'topology' in daughter:
